@@ -544,7 +544,7 @@ class C04World:
             self.stats[f"reach_iter_phase/{phase}|edit"] += 1
             prev_t = next_t = None
             if view == "abs":
-                lst = S._abs._messages if S._abs is not None else []
+                lst = getattr(getattr(S, "_abs", None), "_messages", None) or []
                 i = it.yields - 1
                 if 0 <= i < len(lst) and lst[i] is it.cur_s:
                     prev_t = lst[i - 1].time if i > 0 else 0
